@@ -294,6 +294,15 @@ def run(rep, tier, seed):
     except TranslationError as e:
         class_pairs, enum_pairs = [], []
         rep.notes.append("translator: " + str(e))
+    # the base classes of the model hierarchy are public dataclasses too: using them first must not change what the conversions
+    # of their subclasses do afterwards (nothing about a conversion may depend on what was instantiated before)
+    for base in (model.EntityInfo, model.EntityState):
+        try:
+            base()
+            base.from_dict({})
+            base.from_pb(pb.SensorStateResponse())
+        except Exception:  # noqa: BLE001
+            pass
     members = {me: sorted({v for _, v in mv}) for me, we, mv, wv, why in enum_pairs}
     for name, obj in vars(model).items():
         if isinstance(obj, type) and issubclass(obj, model.APIIntEnum) and obj is not model.APIIntEnum:
